@@ -9,7 +9,7 @@ from vf.core import Sub, Violation, require, Skip
 from vf import mps as M
 
 LEVEL = 'exploration'
-RULE = ('Generated CouplingModels: lattice (Chain, Ladder, Square, Triangular, Honeycomb; small; open / periodic / shifted bc; '
+RULE = ('Generated CouplingModels: lattice (Chain, Ladder, Square, Triangular, Honeycomb, a quarter of them as IrregularLattice with 1-2 sites removed; small; open / periodic / shifted bc; '
         'non-default orders; finite MPS) x site type (spins, bosons, spinless and spinful fermions, conserve options) x term '
         'program (add_onsite with int/float/complex/array strengths, add_coupling with negative / long-range / wrapping dx and '
         'plus_hc, add_multi_coupling with 3-4 operators, add_exponentially_decaying_coupling, add_local_term) x explicit_plus_hc. '
@@ -385,7 +385,7 @@ def run_model(spec):
             cmp(M.mpo_to_dense(mpo_s), 'sort_legcharges')
     nontrivial = len(kinds) >= 2 or wraps or fermionic or eph or spec['order'] != 'default'
     return {'nontrivial': bool(nontrivial), 'classes': ['kind:' + k for k in kinds] + (['fermionic'] if fermionic else []) + (['explicit_plus_hc'] if eph else []) +
-            (['wraps'] if wraps else []) + (['nn'] if all_nn else []) + ['order:' + spec['order']]}
+            (['wraps'] if wraps else []) + (['nn'] if all_nn else []) + ['order:' + spec['order']] + (['irregular'] if type(lat).__name__ == 'IrregularLattice' else [])}
 
 
 SUBCHECKS = [Sub('coupling_models', model_specs, run_model, quick=700, thorough=40000)]
